@@ -1,11 +1,13 @@
 (* Extraction of the executable model and specification to OCaml.
    Only the directives of ExtrOcamlBasic are used (bool, option, unit, list, prod, sumbool, …);
    Z, N, positive and nat stay extracted inductives: no Extract Constant, no ExtrOcamlZInt/NatInt. *)
-From OxiVerif Require Import Base.Common Spec.Filter Model.Types Model.ScanLines Model.Filters.
+From OxiVerif Require Import Base.Common Spec.Filter Spec.Adam7 Spec.Sem Model.Types Model.Headers Model.ScanLines Model.Filters Model.Interlace.
 Require Import ExtrOcamlBasic.
 Extraction Language OCaml.
 Set Extraction KeepSingleton.
 Extraction "model.ml"
   paeth_predictor filter_line unfilter_line filter_image filter_image_rows unfilter_image
   scan_lines scan_ranges filter_of_code filter_code
-  paeth_spec spec_recon_line spec_filter_line spec_recon_seq.
+  raw_data_size interlace_image deinterlace_image change_interlacing
+  paeth_spec spec_recon_line spec_filter_line spec_recon_seq
+  spec_layout spec_raw_size spec_image_pixels spec_sem sval picture_eqb picture_alpha_equivb scaled_rgba.
